@@ -11,6 +11,9 @@ RULE = ("every labelled simple graph on exactly n vertices (all 2^(n(n-1)/2) edg
         "(graph, weighting, weight type) inputs whose cycle space dimension is >= 1 (enumeration never repeats an input)")
 
 
+FAMS_SYM = "antiprism:4,antiprism:5,antiprism:6,antiprism:7,prism:4,prism:5,prism:6,prism:7,prism:8,mobius:4,mobius:5,mobius:6,mobius:7,mobius:8,petersen,cube:3,Kb:3:3,wheel:6,torus:3:3"
+
+
 def lcg_menu(ns, ratios, seeds):
     """Fixed menu of pseudo-random sparse graphs (deterministic LCG): a finite corpus enumerated completely on every run."""
     return ",".join("lcg:%d:%d:%d" % (n, int(n * r), s) for n in ns for r in ratios for s in range(seeds))
@@ -28,6 +31,8 @@ def runs(tier):
         ("G(5) with at most 7 edges x PM2 (every assignment of the distinct weights 2^0..2^(m-1): unique optimum, no ties that could mask a lost candidate)", [["--n", 5, "--alpha", "PM2", "--max-m", 7]]),
         ("blob grammar K=3,T=2 x patterns U, M2, M3", [["--grammar", "blobs:3:2", "--alpha", a] for a in ("U", "M2", "M3")]),
         ("dense families x U", [["--families", "K:6,K:7,wheel:6,prism:4,petersen,Kb:3:4,grid:3:4,cube:3", "--alpha", "U"]]),
+        ("symmetric families (antiprisms, prisms, Moebius ladders, ...) under 60 renumberings x U and under 30 renumberings x M2",
+         [["--families", FAMS_SYM, "--relabel", 60, "--alpha", "U"], ["--families", FAMS_SYM, "--relabel", 30, "--alpha", "M2"]]),
         ("G(6) x A2, graphs with >= 12 edges, mcb_sva_signed (support vectors with several entries: hidden-edge heuristic)", [["--n", 6, "--alpha", "A2", "--min-m", 12, "--variants", "signed"]]),
         ("fixed menu: 2400 pseudo-random sparse graphs n=8..24 x 4 pseudo-random weightings in 1..9 (Horton reference above dimension 15)",
          [["--families", lcg_menu((8, 10, 12, 14, 16, 18, 20, 24), (1.3, 1.6, 2.0), 100), "--alpha", "R9x4"],
